@@ -1,0 +1,194 @@
+// Copyright 2020-2025 Buf Technologies, Inc.
+//
+// Licensed under the Apache License, Version 2.0 (the "License");
+// you may not use this file except in compliance with the License.
+// You may obtain a copy of the License at
+//
+//      http://www.apache.org/licenses/LICENSE-2.0
+//
+// Unless required by applicable law or agreed to in writing, software
+// distributed under the License is distributed on an "AS IS" BASIS,
+// WITHOUT WARRANTIES OR CONDITIONS OF ANY KIND, either express or implied.
+// See the License for the specific language governing permissions and
+// limitations under the License.
+
+
+//go:build verif
+
+package storagemem
+
+// Contracts for the gocv verifier (see /verif/DESIGN.md). Comment-only.
+//
+// The abstract view of a memory bucket is the map b.pathToImmutableObject itself (C14).
+// Well-formedness j_memWf (every key is a valid relative path, not ".", and is its object's
+// Path()) is a precondition and postcondition of every mutating operation
+// (/verif/specs/C14_buckets.spec).
+//
+// Get/Stat: the object found is exactly the one stored under the NORMALIZED path (equivalent
+// spellings denote the same object); anything else is a not-exist error; the view is unchanged (frame).
+//@ func (b *bucket) readLockAndGetImmutableObject(ctx, path) (obj, err)
+//@   property C13 C14
+//@   ensures found: (err == nil) <==> (validRel(Normalize(path)) && Normalize(path) != "." && Normalize(path) in b.pathToImmutableObject)
+//@   ensures exact: err == nil ==> obj == b.pathToImmutableObject[Normalize(path)]
+//@   ensures not-exist: validRel(Normalize(path)) && Normalize(path) != "." && !(Normalize(path) in b.pathToImmutableObject) ==> err != nil && typeOf(err) == typeId(*fs.PathError) && cast(*fs.PathError, err).Err == fs.ErrNotExist
+//@   ensures err != nil ==> obj == nil
+//@   canary ensures err != nil
+//@   canary ensures err == nil
+//
+//@ func (b *bucket) Stat(ctx, path) (obj, err)
+//@   property C13 C14
+//@   ensures found: (err == nil) <==> (validRel(Normalize(path)) && Normalize(path) != "." && Normalize(path) in b.pathToImmutableObject)
+//@   ensures exact: err == nil ==> obj == b.pathToImmutableObject[Normalize(path)]
+//@   canary ensures err != nil
+//
+//@ func newReadObjectCloser(immutableObject) (r)
+//@   property C14
+//@   requires immutableObject != nil
+//@   ensures r != nil && r.ObjectInfo == immutableObject.ObjectInfo
+//
+//@ func (b *bucket) Get(ctx, path) (obj, err)
+//@   property C13 C14
+//@   requires j_memKeys(b.pathToImmutableObject)
+//@   reveal j_memKeys
+//@   ensures found: (err == nil) <==> (validRel(Normalize(path)) && Normalize(path) != "." && Normalize(path) in b.pathToImmutableObject)
+//@   ensures exact: err == nil ==> obj != nil && cast(*readObjectCloser, obj).ObjectInfo == b.pathToImmutableObject[Normalize(path)].ObjectInfo
+//@   canary ensures err != nil
+//
+// Put only validates; nothing becomes visible before Close. The closer is bound to the NORMALIZED path.
+//@ func newWriteObjectCloser(bucket, path) (r)
+//@   property C14
+//@   modifies ghost.buf
+//@   ensures r != nil && r.bucket == bucket && r.path == path && r.externalPath == "" && r.localPath == "" && !r.closed
+//
+//@ func (b *bucket) Put(ctx, path, opts) (w, err)
+//@   property C13 C14
+//@   modifies ghost.buf
+//@   ensures validated: (err == nil) <==> (validRel(Normalize(path)) && Normalize(path) != ".")
+//@   ensures bound: err == nil ==> w != nil && cast(*writeObjectCloser, w).bucket == b && cast(*writeObjectCloser, w).path == Normalize(path) && !cast(*writeObjectCloser, w).closed
+//@   ensures err != nil ==> w == nil
+//@   canary ensures err != nil
+//
+// Close (the put proper): stores exactly at w.path, every other key keeps its object; the stored object
+// carries the path, the external path (defaulting to the path) and the local path; the view stays well-formed.
+//@ func (w *writeObjectCloser) Close() (err)
+//@   property C13 C14 C15
+//@   modifies heap writeObjectCloser.closed, heap bucket.pathToImmutableObject
+//@   requires w.bucket != nil && validRel(w.path) && w.path != "."
+//@   requires j_memKeys(w.bucket.pathToImmutableObject)
+//@   reveal j_memKeys
+//@   ensures closed-twice: old(w.closed) ==> err != nil && w.bucket.pathToImmutableObject == old(w.bucket.pathToImmutableObject)
+//@   ensures ok: !old(w.closed) ==> err == nil && w.closed
+//@   ensures stored: !old(w.closed) ==> w.path in w.bucket.pathToImmutableObject && w.bucket.pathToImmutableObject[w.path] != nil
+//@   ensures stored-object: !old(w.closed) ==> w.bucket.pathToImmutableObject[w.path].ObjectInfo.Path() == w.path && w.bucket.pathToImmutableObject[w.path].ObjectInfo.ExternalPath() == ite(w.externalPath == "", w.path, w.externalPath) && w.bucket.pathToImmutableObject[w.path].ObjectInfo.LocalPath() == w.localPath
+//@   ensures nothing-else: forall k string :: k != w.path ==> ((k in w.bucket.pathToImmutableObject) <==> (k in old(w.bucket.pathToImmutableObject))) && w.bucket.pathToImmutableObject[k] == old(w.bucket.pathToImmutableObject)[k]
+//@   ensures exact-view: !old(w.closed) ==> w.bucket.pathToImmutableObject == put(old(w.bucket.pathToImmutableObject), w.path, w.bucket.pathToImmutableObject[w.path])
+//@   ensures wf-kept: j_memKeys(w.bucket.pathToImmutableObject)
+//@   ensures keyed-kept: (forall k string :: k in old(w.bucket.pathToImmutableObject) ==> old(w.bucket.pathToImmutableObject)[k].ObjectInfo.Path() == k) ==> (forall k string :: k in w.bucket.pathToImmutableObject ==> w.bucket.pathToImmutableObject[k].ObjectInfo.Path() == k)
+//@   ensures only-this-bucket: forall c *bucket :: c != w.bucket ==> c.pathToImmutableObject == old(c.pathToImmutableObject)
+//@   canary ensures err != nil
+//
+//@ func (w *writeObjectCloser) SetExternalPath(externalPath) (err)
+//@   property C14 C15
+//@   modifies heap writeObjectCloser.externalPath
+//@   ensures once: (err == nil) <==> old(w.externalPath) == ""
+//@   ensures err == nil ==> w.externalPath == externalPath
+//@   ensures err != nil ==> w.externalPath == old(w.externalPath)
+//
+//@ func (w *writeObjectCloser) SetLocalPath(localPath) (err)
+//@   property C14 C15
+//@   modifies heap writeObjectCloser.localPath
+//@   ensures once: (err == nil) <==> old(w.localPath) == ""
+//@   ensures err == nil ==> w.localPath == localPath
+//@   ensures err != nil ==> w.localPath == old(w.localPath)
+//
+// Delete removes exactly the normalized key, and reports not-exist (changing nothing) otherwise.
+//@ func (b *bucket) Delete(ctx, path) (err)
+//@   property C13 C14
+//@   modifies heap bucket.pathToImmutableObject
+//@   ensures found: (err == nil) <==> (validRel(Normalize(path)) && Normalize(path) != "." && Normalize(path) in old(b.pathToImmutableObject))
+//@   ensures removed: err == nil ==> b.pathToImmutableObject == del(old(b.pathToImmutableObject), Normalize(path))
+//@   ensures removed-key: err == nil ==> !(Normalize(path) in b.pathToImmutableObject)
+//@   ensures nothing-else: forall k string :: k != Normalize(path) ==> ((k in b.pathToImmutableObject) <==> (k in old(b.pathToImmutableObject))) && b.pathToImmutableObject[k] == old(b.pathToImmutableObject)[k]
+//@   ensures failed-unchanged: err != nil ==> b.pathToImmutableObject == old(b.pathToImmutableObject)
+//@   ensures not-exist: validRel(Normalize(path)) && Normalize(path) != "." && !(Normalize(path) in old(b.pathToImmutableObject)) ==> err != nil && typeOf(err) == typeId(*fs.PathError) && cast(*fs.PathError, err).Err == fs.ErrNotExist
+//@   ensures only-this-bucket: forall c *bucket :: c != b ==> c.pathToImmutableObject == old(c.pathToImmutableObject)
+//@   canary ensures err != nil
+//@   canary ensures err == nil
+//
+// DeleteAll removes exactly the keys PATH-WISE under the prefix (ancOrSelf, not a string prefix).
+// (`modifies heap`: the engine havocs the whole heap at the head of a loop that stores a field through a pointer;
+// the clause only-this-bucket restores the frame for the component that matters.)
+//@ func (b *bucket) DeleteAll(ctx, prefix) (err)
+//@   property C13 C14
+//@   modifies heap
+//@   requires j_memKeys(b.pathToImmutableObject)
+//@   reveal j_memKeys
+//@   ensures validated: (err == nil) <==> validRel(Normalize(prefix))
+//@   ensures exact-keys: err == nil ==> (forall k string :: (k in b.pathToImmutableObject) <==> (k in old(b.pathToImmutableObject) && !ancOrSelf(Normalize(prefix), k)))
+//@   ensures objects-kept: forall k string :: k in b.pathToImmutableObject ==> b.pathToImmutableObject[k] == old(b.pathToImmutableObject)[k]
+//@   ensures failed-unchanged: err != nil ==> b.pathToImmutableObject == old(b.pathToImmutableObject)
+//@   ensures wf-kept: j_memKeys(b.pathToImmutableObject)
+//@   ensures keyed-kept: (forall k string :: k in old(b.pathToImmutableObject) ==> old(old(b.pathToImmutableObject)[k].ObjectInfo.Path()) == k) ==> (forall k string :: k in b.pathToImmutableObject ==> b.pathToImmutableObject[k].ObjectInfo.Path() == k)
+//@   loop 0 invariant forall o *internal.ImmutableObject :: o.ObjectInfo == old(o.ObjectInfo)
+//@   loop 0 invariant forall k string :: (k in b.pathToImmutableObject) <==> (k in old(b.pathToImmutableObject) && !(k in $visited && ancOrSelf(prefix, k)))
+//@   loop 0 invariant forall k string :: k in b.pathToImmutableObject ==> b.pathToImmutableObject[k] == old(b.pathToImmutableObject)[k]
+//@   loop 0 invariant validRel(prefix) && prefix == Normalize(old(prefix))
+//@   loop 0 invariant forall c *bucket :: c != b ==> c.pathToImmutableObject == old(c.pathToImmutableObject)
+//@   ensures only-this-bucket: forall c *bucket :: c != b ==> c.pathToImmutableObject == old(c.pathToImmutableObject)
+//@   canary ensures err != nil
+//
+// Walk: f is modelled as a deterministic function of the object it is given (`callback pure`: under the read lock
+// f cannot change this bucket, a Close inside f would deadlock). Then
+//   complete:  a nil result means f accepted EVERY object path-wise under the prefix;
+//   sound+ordered: a non-nil result (other than a cancelled context) is f's answer on an object under the prefix,
+//              and f accepted every object under the prefix with a smaller path (sorted order, stop at first error);
+//              an object outside the prefix (e.g. "ab/x" for prefix "a") can therefore never influence the result.
+//@ func (b *bucket) Walk(ctx, prefix, f) (err)
+//@   property C13 C14
+//@   callback pure f
+//@   modifies heap
+//@   requires j_memKeys(b.pathToImmutableObject)
+//@   reveal j_memKeys
+//@   ensures validated: !validRel(Normalize(prefix)) ==> err != nil
+//@   ensures view-unchanged: b.pathToImmutableObject == old(b.pathToImmutableObject)
+//@   ensures complete: err == nil ==> (forall k string :: k in b.pathToImmutableObject && ancOrSelf(Normalize(prefix), k) ==> f(b.pathToImmutableObject[k]) == nil)
+//@   ensures sound-ordered: err != nil && validRel(Normalize(prefix)) && !j_ctxDone(ctx) ==> (exists k string :: k in b.pathToImmutableObject && ancOrSelf(Normalize(prefix), k) && f(b.pathToImmutableObject[k]) == err && (forall k2 string :: k2 in b.pathToImmutableObject && ancOrSelf(Normalize(prefix), k2) && k2 < k ==> f(b.pathToImmutableObject[k2]) == nil))
+//@   loop 0 invariant forall j int :: 0 <= j && j < len(paths) ==> paths[j] in b.pathToImmutableObject
+//@   loop 0 invariant forall k string :: k in $visited ==> (exists j int :: 0 <= j && j < len(paths) && paths[j] == k)
+//@   loop 0 invariant validRel(prefix) && prefix == Normalize(old(prefix))
+//@   loop 1 invariant b.pathToImmutableObject == old(b.pathToImmutableObject)
+//@   loop 1 invariant forall j int :: 0 <= j && j < $i && ancOrSelf(prefix, paths[j]) ==> f(b.pathToImmutableObject[paths[j]]) == nil
+//@   canary ensures err != nil
+//@   canary ensures err == nil
+//
+// Construction: a new bucket's view is the given map (or empty); NewReadBucket keys every object by its NORMALIZED
+// path and rejects two spellings of the same path instead of letting one hide the other.
+//@ func newBucket(pathToImmutableObject) (r)
+//@   property C14
+//@   ensures r != nil
+//@   ensures given: pathToImmutableObject != nil ==> r.pathToImmutableObject == pathToImmutableObject
+//@   ensures empty: pathToImmutableObject == nil ==> len(r.pathToImmutableObject) == 0 && (forall k string :: !(k in r.pathToImmutableObject))
+//
+//@ func NewReadBucket(pathToData) (r, err)
+//@   property C13 C14
+//@   reveal j_memKeys
+//@   ensures wf: err == nil ==> r != nil && j_memKeys(cast(*bucket, r).pathToImmutableObject)
+//@   ensures keyed-by-path: err == nil ==> (forall k string :: k in cast(*bucket, r).pathToImmutableObject ==> cast(*bucket, r).pathToImmutableObject[k].ObjectInfo.Path() == k)
+//@   ensures all-present: err == nil ==> (forall p string :: p in pathToData ==> validRel(Normalize(p)) && Normalize(p) != "." && Normalize(p) in cast(*bucket, r).pathToImmutableObject && cast(*bucket, r).pathToImmutableObject[Normalize(p)].data == pathToData[p])
+//@   ensures nothing-else: err == nil ==> (forall k string :: k in cast(*bucket, r).pathToImmutableObject ==> (exists p string :: p in pathToData && Normalize(p) == k))
+//@   ensures duplicates-rejected: err == nil ==> (forall p string, q string :: p in pathToData && q in pathToData && p != q ==> Normalize(p) != Normalize(q))
+//@   ensures invalid-rejected: (exists p string :: p in pathToData && !(validRel(Normalize(p)) && Normalize(p) != ".")) ==> err != nil
+//@   loop 0 invariant j_memKeys(pathToImmutableObject) && pathToImmutableObject != nil
+//@   loop 0 invariant forall k string :: k in pathToImmutableObject ==> pathToImmutableObject[k].ObjectInfo.Path() == k
+//@   loop 0 invariant forall p string :: p in $visited ==> validRel(Normalize(p)) && Normalize(p) != "." && Normalize(p) in pathToImmutableObject && pathToImmutableObject[Normalize(p)].data == pathToData[p]
+//@   loop 0 invariant forall k string :: k in pathToImmutableObject ==> (exists p string :: p in $visited && p in pathToData && Normalize(p) == k)
+//@   loop 0 invariant forall p string, q string :: p in $visited && q in $visited && p != q ==> Normalize(p) != Normalize(q)
+//@   canary ensures err != nil
+//@   canary ensures err == nil
+//
+// Write (C15): a closed writer refuses; otherwise every byte is taken (never success with a truncated object).
+//@ func (w *writeObjectCloser) Write(p) (n, err)
+//@   property C15
+//@   modifies ghost.buf
+//@   ensures closed-refused: w.closed ==> err != nil && n == 0
+//@   ensures complete: !w.closed ==> err == nil && n == len(p)
